@@ -31,7 +31,7 @@ def exRolling : Period := ⟨.year, ⟨2018, 3, 1⟩, 1⟩
 def exLeapFeb : Period := ⟨.month, ⟨2020, 2, 1⟩, 1⟩
 /-- February pre-set to 5 (entity 0) and 8 (entity 1) -/
 def exStore : Store := [(exMonth 2, [5, 8])]
-def exVar (r : SRule) : VarSpec := ⟨.month, r, .num, 2⟩
+def exVar (r : SRule) : VarSpec := { defUnit := .month, rule := r, kind := .num, count := 2 }
 
 /-! ## the calendar part -/
 
@@ -81,7 +81,7 @@ example : sget exStore (exMonth 2) = some [5, 8] ∧
 /-- `Holder.set_input` on a variable declared with the dispatch rule: it is accepted on the whole
 claim domain and does the above on the pieces of the walk -/
 theorem C16_set_input_dispatch (var : VarSpec) (s : Store) (p : Period) (v : Vec)
-    (hr : var.rule = .dispatch) :
+    (hr : var.rule = .dispatch) (hn : var.neutralized = false) :
     (∀ t, setInput var s p v = .ok t →
       ∃ subs, walk var.defUnit p = .ok subs ∧
         (∀ q, q ∈ subs → sget s q = none → sget t q = some (castVec var.kind v)) ∧
@@ -90,7 +90,7 @@ theorem C16_set_input_dispatch (var : VarSpec) (s : Store) (p : Period) (v : Vec
     (WalkDomain p var.defUnit → v.length = var.count → ∃ t, setInput var s p v = .ok t) := by
   constructor
   · intro t h
-    obtain ⟨_, _, subs, hw, rfl⟩ := setInput_dispatch_inv hr h
+    obtain ⟨_, _, subs, hw, rfl⟩ := setInput_dispatch_inv hr hn h
     exact ⟨subs, hw, fun q hq hn => C16_dispatch_fills s subs _ q hq hn,
       fun q w hw' => (C16_dispatch_never_overwrites s subs _ q).1 w hw',
       fun q hq => (C16_dispatch_never_overwrites s subs _ q).2 hq⟩
@@ -100,7 +100,7 @@ theorem C16_set_input_dispatch (var : VarSpec) (s : Store) (p : Period) (v : Vec
       obtain ⟨_, _, _, h | h | h⟩ := hd <;> rw [h.1] <;> decide
     have hp : p.unit ≠ .eternity := by
       obtain ⟨_, _, _, ⟨_, h | h | h⟩ | ⟨_, h | h, _⟩ | ⟨_, h, _⟩⟩ := hd <;> rw [h] <;> decide
-    rw [setInput_of_walk hl he hp hw, hr]
+    rw [setInput_of_walk hl he hp hn hw, hr]
     exact ⟨_, rfl⟩
 
 example : ∃ t, setInput (exVar .dispatch) exStore exYear [10, 10] = .ok t ∧
@@ -175,15 +175,15 @@ example : ∃ t, divideOn .num [] exMonths [12, 24] = .ok t ∧ unknownCount t e
 claim domain unless everything is known and the total differs; conservation, untouched pieces,
 equal share on the pieces of the walk -/
 theorem C16_set_input_divide (var : VarSpec) (s t : Store) (p : Period) (v : Vec)
-    (hr : var.rule = .divide) (hk : var.kind = .num) (hwf : WF var.count s)
-    (h : setInput var s p v = .ok t) :
+    (hr : var.rule = .divide) (hk : var.kind = .num) (hn : var.neutralized = false)
+    (hwf : WF var.count s) (h : setInput var s p v = .ok t) :
     ∃ subs, walk var.defUnit p = .ok subs ∧ v.length = var.count ∧ WF var.count t ∧
       (∀ i, knownSum t subs i = ent v i) ∧
       (∀ q w, sget s q = some w → sget t q = some w) ∧
       (∀ q, q ∈ subs → sget s q = none → ∃ c, sget t q = some c ∧
         ∀ i, ent c i = (ent v i - knownSum s subs i) / (unknownCount s subs : Rat)) ∧
       (∀ q, q ∉ subs → sget t q = sget s q) := by
-  obtain ⟨hl, _, subs, hw, hd⟩ := setInput_divide_inv hr h
+  obtain ⟨hl, _, subs, hw, hd⟩ := setInput_divide_inv hr hn h
   rw [hk] at hd
   simp only [castVec] at hd
   have hwf' : WF v.length s := hl ▸ hwf
@@ -215,10 +215,10 @@ example : ∃ t, divideOn .num exStore exMonths [27, 30] = .ok t ∧
 /-- the same at the level of the public API, on aligned periods: after an accepted
 `set_input(P, v)` on a divide variable, `calculate_add(P)` returns `v` and changes nothing -/
 theorem C16_set_then_add (var : VarSpec) (s t : Store) (p : Period) (v : Vec)
-    (hr : var.rule = .divide) (hk : var.kind = .num) (hwf : WF var.count s)
-    (hd : WalkDomain p var.defUnit) (hal : Aligned p var.defUnit)
+    (hr : var.rule = .divide) (hk : var.kind = .num) (hn : var.neutralized = false)
+    (hwf : WF var.count s) (hd : WalkDomain p var.defUnit) (hal : Aligned p var.defUnit)
     (h : setInput var s p v = .ok t) : calcAdd var t p = .ok (some v, t) := by
-  obtain ⟨hl, he, subs, hw, hdiv⟩ := setInput_divide_inv hr h
+  obtain ⟨hl, he, subs, hw, hdiv⟩ := setInput_divide_inv hr hn h
   rw [hk] at hdiv
   simp only [castVec] at hdiv
   obtain ⟨qs, hw', _, hne, _, _, _⟩ := walk_tiles p var.defUnit hd
@@ -234,8 +234,8 @@ theorem C16_set_then_add (var : VarSpec) (s t : Store) (p : Period) (v : Vec)
     obtain ⟨_, _, _, ⟨_, h2 | h2 | h2⟩ | ⟨_, h2 | h2, _⟩ | ⟨_, h2, _⟩⟩ := hd <;> rw [h2] <;> decide
   have hsum := C16_add_returns_amount s t subs v (hl ▸ hwf) hdiv
   rw [hl] at hsum
-  simp only [calcAdd, if_neg hweight, if_neg he, if_neg hpu, hsub, bind, Except.bind, hsubs_ne, hsum]
-  rfl
+  simp only [calcAdd, if_neg hweight, if_neg he, if_neg hpu, hsub, bind, Except.bind, hsubs_ne, hsum, hn,
+    Bool.false_eq_true, if_false]
 
 example : ∃ t, setInput (exVar .divide) exStore exRolling [27, 30] = .ok t ∧
     WalkDomain exRolling .month ∧ Aligned exRolling .month ∧
@@ -271,12 +271,19 @@ example : ∃ t, divideOn .int [] exMonths [100] = .ok t ∧ sumOver 1 t exMonth
 /-- the store stays well formed along any history of `set_input` calls (all rules, all value types) -/
 theorem C16_store_wellformed (var : VarSpec) (s t : Store) (p : Period) (v : Vec) (hwf : WF var.count s)
     (h : setInput var s p v = .ok t) : WF var.count t := by
+  by_cases hn : var.neutralized = true
+  · unfold setInput at h
+    simp only [hn, if_true] at h
+    split at h
+    · cases h
+    · injection h with h; subst h; exact hwf
+  have hn : var.neutralized = false := by simpa using hn
   cases hr : var.rule with
   | dispatch =>
-    obtain ⟨hl, _, subs, _, rfl⟩ := setInput_dispatch_inv hr h
+    obtain ⟨hl, _, subs, _, rfl⟩ := setInput_dispatch_inv hr hn h
     exact filled_wf (dispatchOn_filled s subs _) hwf (by rw [castVec_length, hl])
   | divide =>
-    obtain ⟨hl, _, subs, _, hd⟩ := setInput_divide_inv hr h
+    obtain ⟨hl, _, subs, _, hd⟩ := setInput_divide_inv hr hn h
     have hcl : (castVec var.kind v).length = var.count := by rw [castVec_length, hl]
     obtain ⟨h1, _, _⟩ := tally_spec s subs (castVec var.kind v) (hcl ▸ hwf)
     unfold divideOn at hd
@@ -289,6 +296,7 @@ theorem C16_store_wellformed (var : VarSpec) (s t : Store) (p : Period) (v : Vec
       · cases hd
   | absent =>
     unfold setInput at h
+    simp only [hn, Bool.false_eq_true, if_false] at h
     split at h
     · cases h
     · rw [hr] at h
@@ -496,7 +504,8 @@ example : sget (runDispatch exStore [([exMonth 1, exMonth 2, exMonth 3], [1, 1])
 /-- the refusals of the routing: an `ETERNITY` input on a dated variable; a vector of the wrong
 length; a rule on an eternal variable; a variable without rule given anything else than one
 definition period -/
-theorem C16_set_input_refusals (var : VarSpec) (s : Store) (p : Period) (v : Vec) :
+theorem C16_set_input_refusals (var : VarSpec) (s : Store) (p : Period) (v : Vec)
+    (hn : var.neutralized = false) :
     (p.unit = .eternity → var.defUnit ≠ .eternity → ∃ e, setInput var s p v = .error e) ∧
     (v.length ≠ var.count → ∃ e, setInput var s p v = .error e) ∧
     (var.defUnit = .eternity → var.rule ≠ .absent → ∃ e, setInput var s p v = .error e) ∧
@@ -508,11 +517,13 @@ theorem C16_set_input_refusals (var : VarSpec) (s : Store) (p : Period) (v : Vec
   · intro h1 h2; exact ⟨"mismatch", by simp [setInput, h1, h2]⟩
   · intro hl
     unfold setInput
+    simp only [hn, Bool.false_eq_true, if_false]
     split
     · exact ⟨_, rfl⟩
     · cases var.rule <;> simp [dispatchByPeriod, divideByPeriod, holderSet, toArray, hl, bind, Except.bind]
   · intro he hr
     unfold setInput
+    simp only [hn, Bool.false_eq_true, if_false]
     split
     · exact ⟨_, rfl⟩
     · cases hrule : var.rule with
@@ -525,6 +536,7 @@ theorem C16_set_input_refusals (var : VarSpec) (s : Store) (p : Period) (v : Vec
         by_cases hl : v.length ≠ var.count <;> simp [hl, bind, Except.bind]
   · intro hr he hp
     unfold setInput
+    simp only [hn, Bool.false_eq_true, if_false]
     split
     · exact ⟨_, rfl⟩
     · rw [hr]
@@ -538,6 +550,7 @@ theorem C16_set_input_refusals (var : VarSpec) (s : Store) (p : Period) (v : Vec
         simp [hl, bind, Except.bind, he, hcond]
   · intro hr he hp hs hl
     unfold setInput
+    simp only [hn, Bool.false_eq_true, if_false]
     have h1 : ¬ (p.unit = .eternity ∧ var.defUnit ≠ .eternity) := by
       intro ⟨h, _⟩; rw [hp] at h; exact he h
     rw [if_neg h1, hr]
@@ -547,8 +560,8 @@ theorem C16_set_input_refusals (var : VarSpec) (s : Store) (p : Period) (v : Vec
       · omega
     simp [holderSet, toArray, hl, bind, Except.bind, he, hcond]
 
-example : (∃ e, setInput ⟨.month, .absent, .num, 1⟩ [] exYear [12] = .error e) ∧
-    setInput ⟨.month, .absent, .num, 1⟩ [] (exMonth 4) [12] = .ok [(exMonth 4, [12])] ∧
+example : (∃ e, setInput { defUnit := .month, rule := .absent, kind := .num, count := 1 } [] exYear [12] = .error e) ∧
+    setInput { defUnit := .month, rule := .absent, kind := .num, count := 1 } [] (exMonth 4) [12] = .ok [(exMonth 4, [12])] ∧
     (∃ e, setInput (exVar .divide) [] Period.eternity [1, 2] = .error e) :=
   ⟨⟨"mismatch", by decide +kernel⟩, by decide +kernel, ⟨"mismatch", by decide +kernel⟩⟩
 
@@ -571,8 +584,61 @@ theorem C16_add_refusals (var : VarSpec) (s : Store) (p : Period) :
         · exact absurd h h2
         · exact absurd h h3
 
-example : (∃ e, calcAdd ⟨.year, .absent, .num, 1⟩ [] Period.eternity = .error e) ∧
+example : (∃ e, calcAdd { defUnit := .year, rule := .absent, kind := .num, count := 1 } [] Period.eternity = .error e) ∧
     (∃ e, calcAdd (exVar .divide) [] ⟨.day, ⟨2018, 1, 1⟩, 40⟩ = .error e) :=
   ⟨⟨"eternal-period", by decide +kernel⟩, ⟨"value", by decide +kernel⟩⟩
+
+/-- a neutralised variable: every input is ignored (the store is returned as it is), `get_array`
+answers the default and `calculate_add` the default summed, whatever was stored; so the
+conservation statement is about variables that are not neutralised -/
+theorem C16_neutralized_ignores (var : VarSpec) (hn : var.neutralized = true) (s : Store) (p : Period) :
+    (∀ v, ¬ (p.unit = .eternity ∧ var.defUnit ≠ .eternity) → setInput var s p v = .ok s) ∧
+    getArray var s p = some (vzero var.count) ∧
+    (∀ r t, calcAdd var s p = .ok (some r, t) → r = vzero var.count ∧ t = s) := by
+  refine ⟨?_, ?_, ?_⟩
+  · intro v hne; unfold setInput; rw [if_neg hne]; simp [hn]
+  · simp [getArray, hn]
+  · intro r t h
+    unfold calcAdd at h
+    split at h
+    · cases h
+    · split at h
+      · cases h
+      · split at h
+        · cases h
+        · cases hs : p.subperiods var.defUnit with
+          | error e => simp [hs, bind, Except.bind] at h
+          | ok subs =>
+            simp only [hs, bind, Except.bind, hn, if_true] at h
+            split at h
+            · cases h
+            · injection h with h
+              injection h with h1 h2
+              injection h1 with h1
+              exact ⟨h1.symm, h2.symm⟩
+
+example : setInput { exVar .divide with neutralized := true } exStore exYear [27, 30] = .ok exStore ∧
+    calcAdd { exVar .divide with neutralized := true } exStore exYear = .ok (some [0, 0], exStore) := by
+  decide +kernel
+
+/-- `Simulation.set_input` and a variable's `end`: an input whose period starts after the end is
+ignored, every other input (including one that starts before the end and runs past it) is routed
+to `Holder.set_input` unchanged — so conservation holds for every period that starts on or before
+the end, and is not claimed for periods that start after it -/
+theorem C16_end_routing (var : VarSpec) (s : Store) (p : Period) (v : Vec) :
+    (var.endDate = none → simSetInput var s p v = setInput var s p v) ∧
+    (∀ e, var.endDate = some e → dateOk p.start = true → ¬ e.lt p.start →
+      simSetInput var s p v = setInput var s p v) ∧
+    (∀ e, var.endDate = some e → dateOk p.start = true → e.lt p.start → simSetInput var s p v = .ok s) := by
+  refine ⟨?_, ?_, ?_⟩
+  · intro h; simp [simSetInput, h]
+  · intro e h hd hlt; simp [simSetInput, h, hd, hlt]
+  · intro e h hd hlt; simp [simSetInput, h, hd, hlt]
+
+example : simSetInput { exVar .divide with endDate := some ⟨2018, 6, 30⟩ } [] exYear [24, 36] =
+      setInput (exVar .divide) [] exYear [24, 36] ∧
+    simSetInput { exVar .divide with endDate := some ⟨2017, 12, 31⟩ } exStore exYear [24, 36] = .ok exStore ∧
+    isOk (setInput (exVar .divide) [] exYear [24, 36]) = true := by
+  decide +kernel
 
 end OFCore
